@@ -5,7 +5,7 @@ from oracles import dt
 
 ID = 'C07'
 RULE = ('English: every HH:MM with seconds in {none,00,01,30,59} (thorough: all 86,400 HH:MM:SS) bare and after "at"; every '
-        '12-hour spelling h[:mm] x 8 am/pm markers and without marker; "h o\'clock"; <date> at <time> for 7 date expressions x '
+        '12-hour spelling h[:mm] x 8 am/pm markers and without marker; "h o\'clock"; <date> at <time> for 9 date expressions (incl. a bare weekday and a month/day without year: two candidate dates, each with every reading) x '
         '40 boundary times x 4 references. Other cultures: HH:MM in the culture\'s notation for every hour x 12 minutes. Oracle: '
         'hour 0 / 13-23 or a marker -> exactly one reading; hour 1-12 without marker -> exactly the two readings twelve hours '
         'apart; composed datetimes = date oracle + time oracle. Non-trivial = entity found with the expected readings; distinct '
@@ -95,12 +95,26 @@ def check_time(ch, cls, cul, q, ref, lit_span, region, exp, record_extra=None):
 
 
 def date_exprs(ref):
-    """(expression, date) pairs: absolute (C06 layouts) and relative (C08 families)"""
+    """(expression, [dates]) pairs: absolute (C06 layouts), relative (C08 families) and the two-candidate families of C09 (a bare
+    weekday name and a month/day without year, both chosen away from the reference's own day): every candidate date must get
+    every reading of the clock time"""
     d0 = ref.date()
     monday_next = d0 - timedelta(days=d0.weekday()) + timedelta(days=7)
-    return [('2016-11-07', date(2016, 11, 7)), ('november 7, 2016', date(2016, 11, 7)), ('12/31/1999', date(1999, 12, 31)),
-            ('tomorrow', d0 + timedelta(days=1)), ('yesterday', d0 - timedelta(days=1)), ('next monday', monday_next),
-            ('3 days ago', d0 - timedelta(days=3))]
+    wd = d0 + timedelta(days=2)
+    names = ['monday', 'tuesday', 'wednesday', 'thursday', 'friday', 'saturday', 'sunday']
+    md = d0 + timedelta(days=40)
+    if (md.month, md.day) == (2, 29):
+        md += timedelta(days=1)
+
+    def on_year(y):
+        return date(y, md.month, md.day)
+    past = max(x for x in (on_year(d0.year - 1), on_year(d0.year)) if x < d0)
+    future = min(x for x in (on_year(d0.year), on_year(d0.year + 1)) if x >= d0)
+    return [('2016-11-07', [date(2016, 11, 7)]), ('november 7, 2016', [date(2016, 11, 7)]), ('12/31/1999', [date(1999, 12, 31)]),
+            ('tomorrow', [d0 + timedelta(days=1)]), ('yesterday', [d0 - timedelta(days=1)]), ('next monday', [monday_next]),
+            ('3 days ago', [d0 - timedelta(days=3)]),
+            (names[wd.weekday()], [wd - timedelta(days=7), wd]),
+            ('%s %d' % (dt.MONTHS['en-us'][md.month - 1], md.day), [past, future])]
 
 
 def body(ch):
@@ -180,7 +194,7 @@ def body(ch):
         di = ch.pick_index('date', len(date_exprs(ref)))
         h, m, s = ch.pick('time', CFG['times40'])
         marker = ch.pick('marker', (None, 'pm', ' am') if 1 <= h <= 12 else (None,))
-        dexpr, d = date_exprs(ref)[di]
+        dexpr, ds = date_exprs(ref)[di]
         tl = '%d' % h + ('' if m is None else ':%02d' % m) + ('' if s is None else ':%02d' % s) + (marker or '')
         q = '%s at %s' % (dexpr, tl)
         # history: the same warm model first answers a related query in which a part-of-day word disambiguates the
@@ -191,8 +205,10 @@ def body(ch):
         exp = readings(h, m, s, marker)
         got = dt.run('en-us', q, ref)
         rec = {'culture': 'en-us', 'query': q, 'reference': ref.isoformat(),
-               'expected': ['%s %s' % (d.isoformat(), tval(*r)) for r in exp], 'observed': got}
-        cls = 'date+time|%s|hour-%s%s' % (dexpr if not dexpr[0].isdigit() else 'absolute',
+               'expected': ['%s %s' % (d.isoformat(), tval(*r)) for d in ds for r in exp], 'observed': got}
+        fam = 'absolute' if dexpr[0].isdigit() else 'bare-weekday' if len(ds) == 2 and ' ' not in dexpr else \
+            'month-day-without-year' if len(ds) == 2 else dexpr
+        cls = 'date+time|%s|hour-%s%s' % (fam,
                                           '00' if h == 0 else '01-12' if h <= 12 else '13-23',
                                           '|after-part-of-day-query' if before else '')
         rec['history'] = before
@@ -203,7 +219,7 @@ def body(ch):
         if tn != 'datetimeV2.datetime' or vals is None:
             ch.fail('%s|%s' % (cls, 'type' if vals is not None else 'resolution-missing'), rec)
         elif sorted(v.get('value') for v in vals) != sorted(rec['expected']):
-            ch.fail('%s|%s' % (cls, 'readings' if len(vals) != len(exp) else 'value'), rec)
+            ch.fail('%s|%s' % (cls, 'readings' if len(vals) != len(rec['expected']) else 'value'), rec)
         elif any(v.get('type') != 'datetime' or dt.wellformed((s0, e0, text, tn, [v])) for v in vals):
             ch.fail('%s|timex' % cls, rec)
         else:
